@@ -882,7 +882,13 @@ class DelayedAttr(Delayed):
 
     @property
     def dask(self):
-        layer = {self._key: (getattr, self._obj._key, self._attr)}
+        # The attribute name is a literal: as a legacy tuple task it would be taken
+        # for a key whenever a key of that name exists in the graph
+        layer = {
+            self._key: Task(
+                self._key, getattr, TaskRef(self._obj._key), self._attr
+            )
+        }
         return HighLevelGraph.from_collections(
             self._key, layer, dependencies=[self._obj]
         )
